@@ -242,11 +242,30 @@ def check(ctx):
         ctx.ob("xor.returns-buffer", xe, r.ast, okr, "returns the transformed buffer" if okr else "XorProvider.encrypt does not return the transformed buffer", node=r)
 
     # ---------------------------------------------------------------- C08.5 rejections
+    from engine.specialize import Spec
     gp = model.method("KeyFile", "_get_provider")
-    ft = falls_through(an, gp)
-    last_raise = isinstance(gp.node.body[-1], ast.Raise)
-    ctx.ob("reject.unknown-method", gp, "unknown method -> raise", not ft and last_raise,
-           "an unknown method ends in raise" if not ft and last_raise else "_get_provider can return without a provider for an unknown method")
+    mparam = gp.positional_params[1]
+
+    def gp_decide(e, node):
+        # the key file is open, the requested method is none of the names the function knows
+        if isinstance(e, ast.Attribute) and isinstance(e.value, ast.Name) and e.value.id == gp.self_name and "key" in e.attr:
+            return True
+        if isinstance(e, ast.Compare) and len(e.ops) == 1 and isinstance(e.left, ast.Name) and e.left.id == mparam:
+            r, op = e.comparators[0], e.ops[0]
+            try:
+                cv = model.const_eval(gp.module, r, gp.cls)
+            except (ValueError, KeyError):
+                cv = None
+            if isinstance(cv, str) or isinstance(cv, (tuple, list, set, frozenset, dict)):
+                if isinstance(op, (ast.Eq, ast.In)):
+                    return False
+                if isinstance(op, (ast.NotEq, ast.NotIn)):
+                    return True
+        return None
+    spu = Spec(an, gp, gp_decide)
+    oku = not spu.normal_returns() and not spu.falls_off() and bool(spu.raises())
+    ctx.ob("reject.unknown-method", gp, "unknown method -> raise", oku,
+           "an unknown method ends in raise" if oku else "_get_provider can return without a provider for an unknown method")
     tp = model.method("SecureField", "to_python")
     vparam = tp.positional_params[2]
     ft = falls_through(an, tp)
@@ -270,15 +289,48 @@ def check(ctx):
     ctx.ob("reject.count", tp, "raise sites in SecureField.to_python", dict_branch_raises >= 4,
            "%d rejection sites (method missing, ciphertext not a string, bad base64, decryption failure, wrong shape)" % dict_branch_raises
            if dict_branch_raises >= 4 else "only %d rejection sites remain" % dict_branch_raises, nontrivial=False)
-    for what, pred in (("missing method", lambda t: isinstance(t.ast, ast.Name) and "method" in t.ast.id),
-                       ("ciphertext not a string", lambda t: isinstance(t.ast, ast.Call) and ast.unparse(t.ast.func) == "isinstance"
-                        and any(isinstance(x, ast.Name) and "cipher" in x.id for x in ast.walk(t.ast)))):
-        found = False
-        for n in g.nodes:
-            if n.kind == "raise":
-                for t, tr in dominating_guards(an, tp, n):
-                    if not tr and pred(t):
-                        found = True
+    # a stored record of the wrong shape: to_python specialised for "a dict without a method" / "a dict whose ciphertext
+    # is not a string" must not return
+    def tp_decider(which):
+        def comp(e, node, keyname):
+            """is e the record component `keyname` (value.get('k') / value['k'], possibly through a local)?"""
+            def direct(x):
+                if isinstance(x, ast.Call) and isinstance(x.func, ast.Attribute) and x.func.attr == "get" and x.args and isinstance(x.args[0], ast.Constant) \
+                        and x.args[0].value == keyname:
+                    return True
+                return isinstance(x, ast.Subscript) and isinstance(x.slice, ast.Constant) and x.slice.value == keyname
+            if direct(e):
+                return True
+            if isinstance(e, ast.Name):
+                srcs = value_sources(tp, e, node)
+                return bool(srcs) and all(k == "expr" and isinstance(pl, ast.AST) and direct(pl) for k, pl in srcs)
+            return False
+
+        def decide(e, node):
+            if isinstance(e, ast.Call) and isinstance(e.func, ast.Name) and e.func.id == "isinstance" and len(e.args) == 2:
+                names = [x.id for x in ([e.args[1]] if isinstance(e.args[1], ast.Name) else getattr(e.args[1], "elts", [])) if isinstance(x, ast.Name)]
+                if isinstance(e.args[0], ast.Name) and e.args[0].id == vparam:
+                    return "dict" in names
+                if comp(e.args[0], node, "ciphertext") and names:
+                    return ("str" in names) if which == "method" else False
+            if isinstance(e, ast.Compare) and len(e.ops) == 1 and isinstance(e.left, ast.Name) and e.left.id == vparam \
+                    and isinstance(e.comparators[0], ast.Constant) and e.comparators[0].value is None:
+                return isinstance(e.ops[0], (ast.IsNot, ast.NotEq))
+            if comp(e, node, "method"):
+                return which != "method"
+            if isinstance(e, ast.Compare) and len(e.ops) == 1 and comp(e.left, node, "method") and isinstance(e.comparators[0], ast.Constant) \
+                    and e.comparators[0].value is None:
+                return (which == "method") == isinstance(e.ops[0], (ast.Is, ast.Eq))
+            return None
+        return decide
+    for x in ast.walk(tp.node):
+        if isinstance(x, ast.Call) and isinstance(x.func, ast.Attribute) and x.func.attr == "get" and len(x.args) >= 2 and isinstance(x.args[0], ast.Constant) \
+                and x.args[0].value in ("method", "ciphertext") and not (isinstance(x.args[1], ast.Constant) and x.args[1].value is None):
+            ctx.ob("reject.%s" % ("missing-method" if x.args[0].value == "method" else "ciphertext-not-a-string"), tp, x, False,
+                   "a record without a %r entry is given %s instead of being rejected" % (x.args[0].value, ast.unparse(x.args[1])), node=x)
+    for what, which in (("missing method", "method"), ("ciphertext not a string", "ciphertext")):
+        spx = Spec(an, tp, tp_decider(which))
+        found = not spx.normal_returns() and not spx.falls_off() and bool(spx.raises())
         ctx.ob("reject.%s" % what.replace(" ", "-"), tp, what, found, "rejected with an error" if found else
                "a stored secret with %s is no longer rejected" % what)
     aes_init = model.method("AesProvider", "__init__")
